@@ -154,9 +154,20 @@ def check_config(ctx, F, tag):
     ctx.floor("total-entry-points" + tag, FLOOR_ENTRIES)
 
     # ---------------- R2 width predicate
-    sites = [("int_vector::IntVector::new", 0, "int_vector::IntVector"), ("int_vector::IntVector::with_len", 1, "int_vector::IntVector"),
-             ("int_vector::IntVector::with_capacity", 1, "int_vector::IntVector"), ("int_vector::IntVectorWriter::new", 1, "int_vector::IntVectorWriter"),
-             ("int_vector::IntVectorWriter::with_buf_len", 1, "int_vector::IntVectorWriter")]
+    check_width_predicate(ctx, F, tag, "C09.R2")
+    check_wm_load_width(ctx, F, tag)
+    return check_config_tail(ctx, F, tag)
+
+
+WIDTH_SITES = [("int_vector::IntVector::new", 0, "int_vector::IntVector"), ("int_vector::IntVector::with_len", 1, "int_vector::IntVector"),
+               ("int_vector::IntVector::with_capacity", 1, "int_vector::IntVector"), ("int_vector::IntVectorWriter::new", 1, "int_vector::IntVectorWriter"),
+               ("int_vector::IntVectorWriter::with_buf_len", 1, "int_vector::IntVectorWriter")]
+
+
+def check_width_predicate(ctx, F, tag, prefix, only=None):
+    """Construction happens exactly for widths 1..=64: behind `width != 0 && width <= 64`, and not behind anything stricter (a
+    constructor that refuses width 64 cannot produce what the in-memory type can)."""
+    sites = [s for s in WIDTH_SITES if only is None or s[0] in only]
     for fn, wp, adt in sites:
         b = F.body(fn)
         aggs = [(bi, st) for bi, si, st in b.stmts() if st["s"] == "assign" and st["rv"]["r"] == "agg" and st["rv"].get("def") == adt]
@@ -166,15 +177,17 @@ def check_config(ctx, F, tag):
             from guards import fact_nonzero, fact_at_most
             wt = ("param", wp, b.local_name(wp + 1))
             nz = fact_nonzero(fs, wt)
-            le = fact_at_most(fs, wt, 64)
+            le = fact_at_most(fs, wt, 64) and not fact_at_most(fs, wt, 63)
             wv = core(b.term_of_operand(dict(zip(st["rv"]["fields"], st["rv"]["ops"]))["width"]))
             ok = ok and nz and le and wv[:2] == ("param", wp)
         # the failing edges return Err
         errs = [bi for bi, si, st in b.stmts() if st["s"] == "assign" and not st["lhs"]["p"] and st["rv"]["r"] == "agg" and st["rv"].get("vname") == "Err"
                 and st["rv"].get("def") == "std::result::Result"]
-        ctx.ob("C09.R2.width-predicate", fn + tag, loc(b.raw["span"]), ok and bool(errs), "guard-dominance",
-               "construction dominated by width != 0 && width <= WORD_BITS with the checked value stored: %s; refusing edge returns Err: %s" % (ok, bool(errs)))
-    check_wm_load_width(ctx, F, tag)
+        ctx.ob(prefix + ".width-predicate", fn + tag, loc(b.raw["span"]), ok and bool(errs), "guard-dominance",
+               "construction dominated by exactly width != 0 && width <= WORD_BITS with the checked value stored: %s; refusing edge returns Err: %s" % (ok, bool(errs)))
+
+
+def check_config_tail(ctx, F, tag):
 
     # ---------------- R3 informational: sibling clamps
     for tr, methods in TRAIT_METHODS.items():
